@@ -195,7 +195,12 @@ class Runtime:
             if self.hot is not None and lab in self.hot:
                 yield ("R", lab, _key(idx))
             self.trace.append((self.cur, "R", lab, _key(idx)))
-        return arr[idx]
+        val = arr[idx]
+        if lab is not None and isinstance(val, np.ndarray) and id(val) not in self.outer:
+            # a view (slice) of an array bound outside the loop: accesses through it are accesses to that array
+            self.outer[id(val)] = lab
+            self.keep.append(val)
+        return val
 
     def st(self, arr, idx, val):
         lab = self.outer.get(id(arr)) if isinstance(arr, np.ndarray) else None
